@@ -2,14 +2,21 @@ package runnersim
 
 import (
 	"fmt"
+	"runtime"
+	"strings"
+	"sync"
 	"testing"
+	"testing/synctest"
 
+	"github.com/attestantio/go-eth2-client/spec"
 	"github.com/attestantio/go-eth2-client/spec/phase0"
 	specqbft "github.com/bloxapp/ssv-spec/qbft"
 	spectypes "github.com/bloxapp/ssv-spec/types"
 	"github.com/bloxapp/ssv-spec/types/testingutils"
 
 	ibftstorage "github.com/bloxapp/ssv/ibft/storage"
+	"github.com/bloxapp/ssv/protocol/v2/qbft/instance"
+	qbftstorage "github.com/bloxapp/ssv/protocol/v2/qbft/storage"
 	"github.com/bloxapp/ssv/protocol/v2/ssv/queue"
 	"github.com/bloxapp/ssv/storage/basedb"
 	"github.com/bloxapp/ssv/storage/kv"
@@ -23,19 +30,19 @@ import (
 // quorum-sized signer set.
 
 type c15 struct {
-	w      *world
-	d      *sim.D
-	inner  basedb.Database
-	fdb    *sim.FaultDB
-	op     *operator
-	role   spectypes.BeaconRole
-	h      int64 // model: highest height started or learned as decided since the last (re)start (slot offset; -1 none)
-	hiSeen [2]int64 // last observed stored highest (height offset, signers)
-	perH   map[int64]int
-	rounds map[int64]map[specqbft.Round]bool // rounds of the valid certificates handed over, per height
-	errFired bool // the step being judged had a storage error injected into it
-	decidedMax int64 // highest height learned as decided (must survive restarts)
-	rerun    map[int64]bool // heights whose duty was (wrongly) started again
+	w          *world
+	d          *sim.D
+	inner      basedb.Database
+	fdb        *sim.FaultDB
+	op         *operator
+	role       spectypes.BeaconRole
+	h          int64    // model: highest height started or learned as decided since the last (re)start (slot offset; -1 none)
+	hiSeen     [2]int64 // last observed stored highest (height offset, signers)
+	perH       map[int64]int
+	rounds     map[int64]map[specqbft.Round]bool // rounds of the valid certificates handed over, per height
+	errFired   bool                              // the step being judged had a storage error injected into it
+	decidedMax int64                             // highest height learned as decided (must survive restarts)
+	rerun      map[int64]bool                    // heights whose duty was (wrongly) started again
 }
 
 // roundsClass: the known defect needs certificates of different rounds at one height.
@@ -71,6 +78,16 @@ func (c *c15) slot(off int64) phase0.Slot { return c.w.baseSlot + phase0.Slot(of
 
 func (c *c15) value(off int64, variant int64) []byte {
 	duty := dutyFor(c.w, c.role, c.slot(off))
+	if c.role == spectypes.BNRoleProposer {
+		blk := copyBlock(testingutils.TestingBeaconBlockCapella)
+		blk.Slot = duty.Slot
+		raw, err := blk.MarshalSSZ()
+		must(err)
+		cd := &spectypes.ConsensusData{Duty: *duty, Version: spec.DataVersionCapella, DataSSZ: raw}
+		b, err := cd.Encode()
+		must(err)
+		return b
+	}
 	att := copyAtt(testingutils.TestingAttestationData)
 	att.Slot, att.Index = duty.Slot, duty.CommitteeIndex
 	att.Target.Epoch = beaconNet.EstimatedEpochAtSlot(duty.Slot)
@@ -160,9 +177,155 @@ func (c *c15) judgeStore(when string) {
 	}
 }
 
+// randaoFrom: the pre-consensus (RANDAO) partial signature of another committee member for the duty's epoch.
+func (c *c15) randaoFrom(id spectypes.OperatorID, slot phase0.Slot) *spectypes.SSVMessage {
+	epoch := beaconNet.EstimatedEpochAtSlot(slot)
+	domain, err := c.op.beacon.DomainData(epoch, spectypes.DomainRandao)
+	must(err)
+	root, err := spectypes.ComputeETHSigningRoot(spectypes.SSZUint64(epoch), domain)
+	must(err)
+	sk := c.w.ks.Shares[id]
+	msgs := spectypes.PartialSignatureMessages{Type: spectypes.RandaoPartialSig, Slot: slot,
+		Messages: []*spectypes.PartialSignatureMessage{{PartialSignature: sk.SignByte(root[:]).Serialize(), SigningRoot: root, Signer: id}}}
+	sig, err := testingutils.NewTestingKeyManager().SignRoot(msgs, spectypes.PartialSignatureType, sk.GetPublicKey().Serialize())
+	must(err)
+	raw, err := (&spectypes.SignedPartialSignatureMessage{Message: msgs, Signature: sig, Signer: id}).Encode()
+	must(err)
+	return &spectypes.SSVMessage{MsgType: spectypes.SSVPartialSignatureMsgType, MsgID: msgID(c.w.ks, c.role), Data: raw}
+}
+
+func c15Goid() string {
+	b := make([]byte, 64)
+	b = b[:runtime.Stack(b, false)]
+	f := strings.Fields(string(b))
+	if len(f) > 1 {
+		return f[1]
+	}
+	return "?"
+}
+
+// twoSave: the per-role store is ONE object shared by all validators of the node. Two other validators
+// save their highest decided instance at the same time; the two goroutines park at every storage call
+// and are released in the order the step prescribes (quiescence = synctest.Wait: parked goroutines wait
+// on a channel). Afterwards each validator must read back its own certificate.
+func (c *c15) twoSave(s sim.Step) string {
+	st := c.op.stores.Get(c.role)
+	cfg := c.op.runners[c.role].GetBaseRunner().QBFTController.GetConfig()
+	mk := func(tag byte, off int64) *qbftstorage.StoredInstance {
+		id := msgID(c.w.ks, c.role)
+		id[10] ^= tag // another validator's public key inside the message id
+		inst := instance.NewInstance(cfg, &c.op.share.Share, id[:], specqbft.Height(c.slot(off)))
+		val := c.value(off, 0)
+		dm := &specqbft.SignedMessage{}
+		must(dm.Decode(c.w.decidedMsg(c.role, specqbft.Height(c.slot(off)), 1, val, []spectypes.OperatorID{1, 2, 3}).Data))
+		dm.Message.Identifier = id[:]
+		inst.State.Decided, inst.State.DecidedValue = true, val
+		return &qbftstorage.StoredInstance{State: inst.State, DecidedMessage: dm}
+	}
+	insts := []*qbftstorage.StoredInstance{mk(0x55, 3+s.Arg(1)%4), mk(0xaa, s.Arg(2)%3)}
+	gates := []chan struct{}{make(chan struct{}), make(chan struct{})}
+	var mu sync.Mutex
+	who := map[string]int{}
+	done := []bool{false, false}
+	errs := []error{nil, nil}
+	c.fdb.Yield = func(op string) {
+		mu.Lock()
+		k, ok := who[c15Goid()]
+		mu.Unlock()
+		if ok {
+			<-gates[k]
+		}
+	}
+	for k := range insts {
+		go func(k int) {
+			mu.Lock()
+			who[c15Goid()] = k
+			mu.Unlock()
+			errs[k] = st.SaveHighestInstance(insts[k])
+			mu.Lock()
+			done[k] = true
+			mu.Unlock()
+		}(k)
+		synctest.Wait() // parked at its first storage call (or finished)
+	}
+	order := []int{0, 1}
+	if s.Arg(0)%2 == 1 {
+		order = []int{1, 0}
+	}
+	for _, k := range order {
+		for i := 0; i < 50; i++ {
+			mu.Lock()
+			d := done[k]
+			mu.Unlock()
+			if d {
+				break
+			}
+			gates[k] <- struct{}{}
+			synctest.Wait()
+		}
+	}
+	c.fdb.Yield = nil
+	c.d.Fault("concurrent-store-access")
+	for k, in := range insts {
+		got, err := st.GetHighestInstance(in.State.ID)
+		switch {
+		case errs[k] != nil:
+			// an injected storage fault may fail a save; nothing to compare then
+		case err != nil || got == nil:
+			c.d.Violate("stored-highest-of-other-validator-lost", "concurrent-save", "two validators saved their highest decided instance through the shared %s store at the same time; validator %d's certificate (height +%d) cannot be read back (err=%v)", c.role, k, int64(in.State.Height)-int64(c.w.baseSlot), err)
+		case got.State.Height != in.State.Height || string(got.State.ID) != string(in.State.ID):
+			c.d.Violate("stored-highest-of-other-validator-replaced", "concurrent-save", "two validators saved their highest decided instance through the shared %s store at the same time; validator %d reads back height +%d of another validator instead of its own height +%d", c.role, k, int64(got.State.Height)-int64(c.w.baseSlot), int64(in.State.Height)-int64(c.w.baseSlot))
+		}
+	}
+	return fmt.Sprintf("twosave order=%v errs=%v", order, errs)
+}
+
 func (c *c15) step(s sim.Step) string {
 	br := c.op.runners[c.role].GetBaseRunner()
 	switch s.Op {
+	case "twosave":
+		return c.twoSave(s)
+	case "preq":
+		// proposer duties: the RANDAO partial signatures of the other members arrive; with a quorum the
+		// runner fetches a block and starts consensus for the duty's height - unless that height is
+		// already known as decided (the certificate may overtake the pre-consensus phase)
+		if c.role != spectypes.BNRoleProposer || br.State == nil || br.State.StartingDuty == nil || br.State.Finished {
+			return "preq: no duty waiting"
+		}
+		slot := br.State.StartingDuty.Slot
+		off := int64(slot) - int64(c.w.baseSlot)
+		hadRunning := br.State.RunningInstance != nil
+		c.op.net.out = nil
+		for id := 2; id <= c.w.quorum()+1 && id <= c.w.n; id++ {
+			_ = c.process(c.randaoFrom(spectypes.OperatorID(id), slot))
+		}
+		started := 0
+		for _, m := range c.op.net.out {
+			if m.MsgType == spectypes.SSVConsensusMsgType {
+				sm := &specqbft.SignedMessage{}
+				if sm.Decode(m.Data) == nil && sm.Message.Height == specqbft.Height(slot) {
+					started++
+				}
+			}
+		}
+		c.op.net.out = nil
+		if !hadRunning && (started > 0 || br.State.RunningInstance != nil) {
+			switch {
+			case off <= c.decidedMax && c.d.Probes["restart"] > 0 && func() bool { st, _, ok := c.storedHighest(); return !ok || st < off }():
+				// known class (same as for StartDuty): the decided height was never recorded as the durable highest
+				c.d.Finding("old-duty-started", "after-restart/decided-height-not-recorded-as-highest", "after a restart the RANDAO quorum for slot +%d completed and consensus was started although a decided certificate for that height had been processed before the restart (it was not recorded as the highest decided)", off)
+				c.rerun[off] = true
+			case off <= c.decidedMax:
+				c.d.Violate("decided-height-run-again", "pre-consensus-completed-after-decided", "the RANDAO quorum for slot +%d completed after a decided certificate for that height had been processed, and the runner started consensus for it (%d consensus broadcasts, running instance=%v)", off, started, br.State.RunningInstance != nil)
+			case off <= c.h:
+				c.d.Violate("old-duty-started", "pre-consensus-completed/same-process", "the RANDAO quorum for slot +%d completed and consensus was started although height +%d had already been started", off, c.h)
+			default:
+				c.h = off
+				c.d.Probe("duty-started")
+			}
+		}
+		c.d.Probe("pre-consensus-quorum-delivered")
+		return fmt.Sprintf("preq +%d consensus-broadcasts=%d running=%v", off, started, br.State.RunningInstance != nil)
 	case "duty":
 		off := s.Arg(0) % 8
 		nInst := len(br.QBFTController.StoredInstances)
@@ -170,6 +333,21 @@ func (c *c15) step(s sim.Step) string {
 		var err error
 		c.w.safely(c.op, "StartDuty", func() { err = c.op.v.StartDuty(logger, dutyFor(c.w, c.role, c.slot(off))) })
 		sent := len(c.op.net.out)
+		if c.role == spectypes.BNRoleProposer {
+			// starting a proposer duty only opens the pre-consensus phase (a RANDAO partial signature);
+			// consensus for the height starts - or must be refused - when the RANDAO quorum completes (preq)
+			sent = 0
+			for _, m := range c.op.net.out {
+				if m.MsgType == spectypes.SSVConsensusMsgType {
+					sent++
+				}
+			}
+			if err == nil && !(off <= c.h && (sent > 0 || (!hadInst && br.QBFTController.StoredInstances.FindInstance(specqbft.Height(c.slot(off))) != nil))) {
+				c.op.net.out = nil
+				c.d.Probe("proposer-duty-opened")
+				return fmt.Sprintf("duty +%d (proposer, pre-consensus) err=%v", off, err != nil)
+			}
+		}
 		c.op.net.out = nil
 		if off <= c.h {
 			_ = nInst
@@ -292,7 +470,11 @@ func runC15(t *testing.T, d *sim.D) {
 		w := &world{d: d, prop: "C15", n: 4, f: 1, ks: keySet(4), pending: map[pend]bool{}, signedOnce: map[string]bool{},
 			certified: map[string][]byte{}, commitSeen: map[string]map[spectypes.OperatorID]bool{}, dutiesStarted: map[int]int{}}
 		w.baseSlot = beaconNet.EstimatedCurrentSlot()
-		c := &c15{w: w, d: d, role: spectypes.BNRoleAttester, h: -1, hiSeen: [2]int64{-1, 0}, perH: map[int64]int{}, rounds: map[int64]map[specqbft.Round]bool{}, decidedMax: -1, rerun: map[int64]bool{}}
+		role := spectypes.BNRoleAttester
+		if d.Cfg.Get("proposer", 0) == 1 {
+			role = spectypes.BNRoleProposer
+		}
+		c := &c15{w: w, d: d, role: role, h: -1, hiSeen: [2]int64{-1, 0}, perH: map[int64]int{}, rounds: map[int64]map[specqbft.Round]bool{}, decidedMax: -1, rerun: map[int64]bool{}}
 		if d.Cfg.Get("badger", 0) == 1 {
 			db, err := kv.NewInMemory(logger, basedb.Options{})
 			must(err)
@@ -312,6 +494,12 @@ func runC15(t *testing.T, d *sim.D) {
 			}
 			if r.Chance(0.12) {
 				return &sim.Step{Op: "timeout"}
+			}
+			if r.Chance(0.06) {
+				return &sim.Step{Op: "twosave", A: []int64{int64(r.Intn(2)), int64(r.Intn(4)), int64(r.Intn(3))}}
+			}
+			if c.role == spectypes.BNRoleProposer && r.Chance(0.25) {
+				return &sim.Step{Op: "preq"}
 			}
 			switch r.Weighted(8, 6, 10, 3, int(d.Cfg.Get("w_fault", 3))) {
 			case 0:
@@ -370,14 +558,14 @@ func runC15(t *testing.T, d *sim.D) {
 func init() {
 	Specs["C15"] = &sim.Spec{Sim: "runnersim", Run: runC15,
 		GenConfig: func(r *sim.Rand, tier string) sim.Config {
-			c := sim.Config{"n": 4, "full_node": int64(r.Intn(2)), "steps": int64(10 + r.Intn(50)), "badger": int64(r.Weighted(6, 1)), "w_fault": int64(r.Intn(6))}
+			c := sim.Config{"n": 4, "full_node": int64(r.Intn(2)), "steps": int64(10 + r.Intn(50)), "badger": int64(r.Weighted(6, 1)), "w_fault": int64(r.Intn(6)), "proposer": int64(r.Weighted(3, 1))}
 			if tier == "thorough" {
 				c["steps"] = int64(10 + r.Intn(120))
 			}
 			return c
 		},
-		Real: []string{"validator.Validator.StartDuty / ProcessMessage, attester runner (BaseRunner.baseStartNewDuty, ShouldProcessDuty, baseConsensusMsgProcessing, SaveInstance)", "qbft controller (StartNewInstance, UponDecided, LoadHighestInstance, InstanceContainer) + instance", "ibft/storage (SaveInstance / SaveHighestInstance / SaveHighestAndHistoricalInstance / GetHighestInstance / GetInstance) on sim.MemDB or in-memory Badger (1 of 7 runs), always behind the fault-injecting wrapper", "full and light node"},
-		Stub: []string{"the other committee members (the simulator signs their proposals, prepares, commits and decided certificates with the real share keys)", "beacon node, transport, timers, clock as in C03", "restart = Validator.Start's loading of the highest instance re-implemented (8 lines)"},
-		Rule: "seeded histories for one operator: StartDuty(slot below / equal / above the current height), drive the running instance to a local decision, decided certificates for past / current / future heights with quorum, disjoint-quorum, full and sub-quorum signer sets in rounds 1-3 and two values, restarts on the same database, operations interrupted at their k-th storage call (crash before / after, storage error) followed by restart. Reference model: H = highest height started or learned as decided (after restart: the durable highest decided). Oracle: StartDuty(s <= H) is refused without instance or broadcast; the stored highest decided never regresses in (height, signer count); per stored height the signer count never decreases. Non-trivial: a duty started and something stored.",
+		Real:        []string{"validator.Validator.StartDuty / ProcessMessage, attester runner (BaseRunner.baseStartNewDuty, ShouldProcessDuty, baseConsensusMsgProcessing, SaveInstance)", "qbft controller (StartNewInstance, UponDecided, LoadHighestInstance, InstanceContainer) + instance", "ibft/storage (SaveInstance / SaveHighestInstance / SaveHighestAndHistoricalInstance / GetHighestInstance / GetInstance) on sim.MemDB or in-memory Badger (1 of 7 runs), always behind the fault-injecting wrapper", "full and light node"},
+		Stub:        []string{"the other committee members (the simulator signs their proposals, prepares, commits and decided certificates with the real share keys)", "beacon node, transport, timers, clock as in C03", "restart = Validator.Start's loading of the highest instance re-implemented (8 lines)"},
+		Rule:        "seeded histories for one operator: StartDuty(slot below / equal / above the current height), drive the running instance to a local decision, decided certificates for past / current / future heights with quorum, disjoint-quorum, full and sub-quorum signer sets in rounds 1-3 and two values, restarts on the same database, operations interrupted at their k-th storage call (crash before / after, storage error) followed by restart. Reference model: H = highest height started or learned as decided (after restart: the durable highest decided). Oracle: StartDuty(s <= H) is refused without instance or broadcast; the stored highest decided never regresses in (height, signer count); per stored height the signer count never decreases. Non-trivial: a duty started and something stored.",
 		Assumptions: []string{"durable state = committed database writes", "certificates are assembled with the real share keys of all members (the simulator plays the rest of the committee)"}}
 }
